@@ -1,7 +1,7 @@
 (* Extraction of the executable model for the correspondence check. ExtrOcamlBasic only: bool, option, list, prod,
    unit, sumbool map to OCaml's; nat, N, Z, positive, string, ascii stay Coq data types. No Extract Constant. *)
 From Coq Require Import Extraction ExtrOcamlBasic.
-Require Import Codec CRC Frame Reader Rijndael Cipher Wire Vocab Builder BuilderInst Config Validate Client Session JsonIn JsonInst JsonOut JsonDoc.
+Require Import Codec CRC Frame Reader Rijndael Cipher Wire Vocab Builder BuilderInst Config Validate Client Session JsonIn JsonInst JsonOut JsonDoc Cli.
 Extraction "model.ml"
   model_write model_plain model_read_step model_feed rinit key_schedule key_pad iv0 c_enc c_dec crc32
   decode_frame dec_items enc_items
@@ -11,4 +11,4 @@ Extraction "model.ml"
   b_create_request b_create_requests
   Config.check Config.key_of
   session c_valid c_auth_req c_auth_ok c_verdict validb
-  parse_requests j_parse render_json render_simple render_merged.
+  parse_requests j_parse render_json render_simple render_merged cli_main.
